@@ -135,6 +135,9 @@ def execute(spec, which):
         cfg = recorded.default_cfg(g, target=t.describe(), xp=xpn, dtype=None, n=int(g.integers(16, 40)))
         cfg["precond"] = recorded.random_precond(g, t)
         cfg["flow_seed"] = sseed
+        if g.random() < 0.5:
+            # final enlargement / reduction: one more resampling and mutation after the tempering loop
+            cfg["opts"]["n_final_samples"] = int(cfg["n"] + g.choice([-7, 9, 30]))
         t2, a, probe = recorded.build(cfg)
         if kind == "is_analytic":
             s = a.sample_posterior(64, sampler="importance")
